@@ -11,6 +11,7 @@ import (
 	_ "verif/harness/checks/c09"
 	_ "verif/harness/checks/c10"
 	_ "verif/harness/checks/c11"
+	_ "verif/harness/checks/c12"
 	_ "verif/harness/checks/c13"
 	_ "verif/harness/checks/c15"
 	_ "verif/harness/checks/c16"
